@@ -47,7 +47,7 @@ def items(tier):
 
 
 def item_strategy(sg, tier):
-    return st.fixed_dictionaries({"crystal": gx.crystal_descs(sgs=[sg]), "pres": gx.presentations(identity_ok=False)})
+    return st.fixed_dictionaries({"crystal": gx.crystal_descs(sgs=[sg], salt=sg % 89), "pres": gx.presentations(identity_ok=False)})
 
 
 def run_case(desc):
